@@ -46,10 +46,13 @@ fn deviation_i32_2d<const R: usize, const C: usize, const RC: usize>(la: u8, lb:
     assert!(a.sq_l2_dist(&b) == Ok(sq), "sq_l2_dist == sum (a-b)^2");
     assert!(a.l1_dist(&b) == Ok(l1), "l1_dist == sum |a-b|");
     assert!(a.linf_dist(&b) == Ok(linf), "linf_dist == max |a-b|");
-    assert!(a.l2_dist(&b) == Ok((sq as f64).sqrt()), "l2_dist == sqrt(sq_l2_dist)");
+    // CBMC's sqrt model is only accurate to an ulp (and not a function): assert the defining relation
+    let l2 = a.l2_dist(&b).unwrap();
+    assert!(l2 >= 0.0 && (l2 * l2 - sq as f64).abs() <= 1.0e-9 * (sq as f64), "l2_dist == sqrt(sq_l2_dist)");
     assert!(a.mean_abs_err(&b) == Ok(l1 as f64 / n), "mean_abs_err == l1 / n");
     assert!(a.mean_sq_err(&b) == Ok(sq as f64 / n), "mean_sq_err == sq_l2 / n");
-    assert!(a.root_mean_sq_err(&b) == Ok((sq as f64 / n).sqrt()), "rmse == sqrt(mse)");
+    let rmse = a.root_mean_sq_err(&b).unwrap();
+    assert!(rmse >= 0.0 && (rmse * rmse - sq as f64 / n).abs() <= 1.0e-9 * (sq as f64 / n), "rmse == sqrt(mse)");
     // symmetry and zero on identical arguments
     assert!(b.l1_dist(&a) == Ok(l1) && b.sq_l2_dist(&a) == Ok(sq) && b.linf_dist(&a) == Ok(linf) && b.count_eq(&a) == Ok(eq));
     assert!(a.l1_dist(&a) == Ok(0) && a.sq_l2_dist(&a) == Ok(0) && a.linf_dist(&a) == Ok(0) && a.count_eq(&a) == Ok(RC));
